@@ -151,6 +151,8 @@ class LcModels(Models):
                 wv = ip.deconst(args[1])
                 w = wv[1] if wv[0] == "i" and wv[1] == wv[2] else None
             self.recodings = getattr(self, "recodings", []) + [(m.group(1), w, sid)]
+            if getattr(self, "zero_digits", False):
+                return ("arr", (I(0),) * N)         # scenario: every scalar is zero (all the work-skipping paths at once)
             return ("arr", tuple(("dig", (sid, m.group(1), w), i, 1) for i in range(N)))
         # table lookups
         if S(r"window::(Naf)?LookupTable\w*(::)?<.*>::select$|window::(Naf)?LookupTable\w*::<T>::select$") and len(args) >= 2:
@@ -233,9 +235,10 @@ class LcInterp(Interp):
         return super().binop(op, a, b, ty, fv, line)
 
 
-def run(F, f, values, vec_limit=8, digit_sign=None):
+def run(F, f, values, vec_limit=8, digit_sign=None, zero_digits=False):
     ip = LcInterp(F, LcModels(), step_budget=40_000_000)
     ip.models.digit_sign = digit_sign
+    ip.models.zero_digits = zero_digits
     ip.exact_small_vecs = True
     ip.exact_vec_limit = vec_limit
     ret, root = ip.run_root(f, values)
